@@ -28,8 +28,10 @@ class PollFuture(_Future):
         super(PollFuture, self).__init__()
         self._delegate = delegate
         self._executor = executor
-        self._delegate.add_done_callback(self._delegate_resolved)
+        # The clean-up callback must be in place before the delegate can resolve
+        # us: the poll thread may resolve this future as soon as it is registered.
         self.add_done_callback(self._clear_executor)
+        self._delegate.add_done_callback(self._delegate_resolved)
 
     def _delegate_resolved(self, delegate):
         assert delegate is self._delegate, "BUG: called with %s, expected %s" % (
